@@ -115,3 +115,8 @@ Proof.
   - rewrite H. apply Bool.andb_false_r.
   - change (c :: r ++ [46; 48]) with ((c :: r) ++ [46; 48]). apply H.
 Qed.
+
+(* scraped fact (trip-wire): the float literal printer emits the infinity builtin exactly for infinite constants; every
+   finite constant is printed as digits (and then rounded by the C compiler) *)
+Lemma emit_inf_guard : EMIT_INF_GUARD_IS_ISINFINITE = true.
+Proof. reflexivity. Qed.
